@@ -106,6 +106,8 @@ pub fn plan(prop: &str) -> Option<Plan> {
         "C05" => {
             p.name = "C05";
             p.o_link_weak = 24;
+            p.w_settle = 8;
+            p.kinds.push((10, Kind::DB));
             p.o_upgrade = 22;
             p.o_weak_query = 10;
             p.o_unlink = 14;
@@ -133,7 +135,7 @@ pub fn plan(prop: &str) -> Option<Plan> {
             p.o_link_weak = 18;
             p.o_upgrade = 16;
             p.o_unlink = 12;
-            p.kinds = vec![(24, Kind::D), (24, Kind::R), (6, Kind::L), (2, Kind::LS), (12, Kind::LB), (12, Kind::RB), (10, Kind::OB), (2, Kind::Sl), (2, Kind::SH), (2, Kind::Dyn), (6, Kind::P), (8, Kind::Set)];
+            p.kinds = vec![(24, Kind::D), (24, Kind::R), (6, Kind::L), (2, Kind::LS), (12, Kind::LB), (12, Kind::RB), (10, Kind::OB), (2, Kind::Sl), (2, Kind::SH), (2, Kind::Dyn), (6, Kind::P), (4, Kind::DB), (8, Kind::Set)];
             Plan {
                 prop: "C06",
                 profile: p,
